@@ -150,3 +150,37 @@ REUSE_TOOL = Contract(
     frame=["Params.p_has", "Params.p_val"], props=["C20"],
     assumes=["the reused tool is a seam (None or any integer status); exceptions of the tool are outside this contract"],
 )
+
+
+# ---------------------------------------------------------------- incompatible workers are skipped, the others still get the step
+def skip_block(fn):
+    found = [n for n in ast.walk(fn) if isinstance(n, ast.If) and ast.unparse(n.test) == "len(nodes) == 0"]
+    return found[:1] if len(found) == 1 else []
+
+
+def _skip_contract(func, with_else):
+    name = f"{func}#incompatible_worker"
+    return Contract(
+        target=f"{INTERTEST}::{func}", name=name, block=("incompatible_worker", skip_block),
+        params={"nodes": Seq(Ref("TestNode")), "test_worker": Ref("TestWorker"), "verb": Seq(STR)},
+        requires=["len(verb) >= 4"],
+        raises={"RuntimeError": "len(nodes) > 1" if with_else else "False"},
+        ensures=[
+            # a worker that cannot host the selected vms is skipped; the step still runs on every other worker
+            ("only_this_worker_is_skipped", "ite(len(nodes) == 0, flow == 'continue', flow == 'normal')"),
+        ],
+        frame=[], props=["C20"],
+        assumes=["extracted block: the statement that handles a worker without a compatible test variant"],
+    )
+
+
+SKIP_ONE_NODE = _skip_contract("_parse_one_node_for_all_objects_per_worker", True)
+SKIP_PER_OBJECT = _skip_contract("_parse_and_iterate_for_objects_and_workers", False)
+
+# same run policy for the steps that take all vms at once
+RUN_FLAG_ONE_NODE = Contract(
+    target=f"{INTERTEST}::_parse_one_node_for_all_objects_per_worker", name="_parse_one_node_for_all_objects_per_worker#run_flag",
+    block=("run_flag", run_flag_lambda),
+    params=RUN_FLAG.params, requires=RUN_FLAG.requires, overrides=RUN_FLAG.overrides, raises=RUN_FLAG.raises,
+    ensures=RUN_FLAG.ensures, result_kind=BOOL, frame=[], props=["C20"], assumes=RUN_FLAG.assumes,
+)
